@@ -6,6 +6,6 @@ U(scheme, port) == [scheme |-> scheme, host |-> "repo", upper |-> FALSE, port |-
 ReposQuick    == {U("http", 0), U("http", 8080), U("https", 8443)}
 ReposThorough == ReposQuick \cup {U("https", 0), U("http", 9090)}
 
-PathsAll == {"getter", "dl_name", "dl_url", "locate", "pull", "manager"}
+PathsAll == {"getter", "dl_name", "dl_url", "locate", "pull", "manager", "manager2"}
 VariantsAll == {"rel", "same", "path", "scheme", "host", "sub", "suffix", "port", "case", "user", "userhost", "defport"}
 =============================================================================
